@@ -2069,12 +2069,16 @@ int EGLPNUM_TYPENAME_ILLlib_chgsense (
 			break;
 		case 'E':									/* Artificial */
 			qslp->sense[rowlist[i]] = 'E';
+			if (qslp->rangeval)	/* only a ranged row has a range */
+				EGLPNUM_TYPENAME_EGlpNumZero (qslp->rangeval[rowlist[i]]);
 			EGLPNUM_TYPENAME_EGlpNumZero (qslp->lower[j]);
 			EGLPNUM_TYPENAME_EGlpNumZero (qslp->upper[j]);
 			EGLPNUM_TYPENAME_EGlpNumOne (A->matval[k]);
 			break;
 		case 'G':									/* Surplus   */
 			qslp->sense[rowlist[i]] = 'G';
+			if (qslp->rangeval)	/* only a ranged row has a range */
+				EGLPNUM_TYPENAME_EGlpNumZero (qslp->rangeval[rowlist[i]]);
 			EGLPNUM_TYPENAME_EGlpNumZero (qslp->lower[j]);
 			EGLPNUM_TYPENAME_EGlpNumCopy (qslp->upper[j], EGLPNUM_TYPENAME_ILL_MAXDOUBLE);
 			EGLPNUM_TYPENAME_EGlpNumOne (A->matval[k]);
@@ -2082,6 +2086,8 @@ int EGLPNUM_TYPENAME_ILLlib_chgsense (
 			break;
 		case 'L':									/* Slack     */
 			qslp->sense[rowlist[i]] = 'L';
+			if (qslp->rangeval)	/* only a ranged row has a range */
+				EGLPNUM_TYPENAME_EGlpNumZero (qslp->rangeval[rowlist[i]]);
 			EGLPNUM_TYPENAME_EGlpNumZero (qslp->lower[j]);
 			EGLPNUM_TYPENAME_EGlpNumCopy (qslp->upper[j], EGLPNUM_TYPENAME_ILL_MAXDOUBLE);
 			EGLPNUM_TYPENAME_EGlpNumOne (A->matval[k]);
